@@ -1,5 +1,15 @@
-"""C07 - see harness/iindex_hist.py (shared generator, abstraction and NumPy oracle of C06/C07/C15) and
-coq/theories/Properties/C07.v.  This check judges the C07 part of every step: IIndex/Check.v chk07."""
+"""C07 - every operation preserves index well-formedness.
+
+Theorems: coq/theories/Properties/C07.v (`wf_b` reflects `WF`; `op_wf` per operation; history_wf; iindex-proofs).
+Tie (this check): harness/iindex_hist.py `run_check(ctx, "C07")` - the C06 histories, and on the REAL result of every step
+  * inside Coq (IIndex/Check.v `chk07`): `wf_b (abs after) = true` (also for every slice yielded by slices1d, and for the
+    model's result);
+  * Python: `validate(True)` does not raise, plus what it does not check (arity, int coordinates, extents, row range,
+    uint32 1-D arrays, non-empty entries) and the consequences named by the property (abscissae = values present,
+    sparsity = share of common cells); the receiver of a call that raised is checked as well;
+  * two more streams: every step result goes through a real INDX file (IndxIO.save -> load -> iindex(...), `chk07load`),
+    and from_array is run on every dense array a history reaches (`chk07from`).
+Notes: notes/iindex-harness.md."""
 from .. import iindex_hist
 
 
